@@ -362,6 +362,7 @@ def run_demo_case(rng, tmp, idx):
     bad = None
     txn = None
     staged = set()
+    collided = False
     try:
         for _ in range(rng.choice([8, 16, 30])):
             top = stack[-1]
@@ -379,6 +380,7 @@ def run_demo_case(rng, tmp, idx):
                 if coll and rng.random() < 0.7:
                     top._next_oid = coll[0]            # the running candidate itself collides
                 draws.queue = coll
+                collided = collided or bool(coll)
                 before = present_oids(top) | staged
                 oid = u64(top.new_oid())
                 log.append('newoid draws=%s -> %d' % (coll, oid))
@@ -427,7 +429,7 @@ def run_demo_case(rng, tmp, idx):
             except Exception:
                 pass
         shutil.rmtree(d, ignore_errors=True)
-    return bad, log, True
+    return bad, log, collided
 
 
 def probe_uncreated_reissue(tmp):
